@@ -85,6 +85,9 @@ HIST_OPS = {
     "set_channel_same": lambda s, c: None,
     "concat_alias": _concat_alias,
     "concat_copy": _concat_copy,
+    # the sequence as its own operand
+    "concat_self": lambda s, c: s.concatenate([s]),
+    "merge_self": lambda s, c: s.merge([s]),
     "add_note": _add_note,
     "add_wait": lambda s, c: s.add_relative_message(wait(5)),
     "edit_wait": _edit_wait,
@@ -189,6 +192,6 @@ def live_case(case, R, p=60, c0=0, c1=1, hp=50):
         R.outcome = "history_leaves_unobservable_state"
         return None
     R.flags.append("after_history")
-    if "concat_alias" in case["hist"]:
+    if "concat_alias" in case["hist"] or "concat_self" in case["hist"]:
         R.flags.append("aliased_messages_inside_sequence")
     return s, [list(n) for n in d[0]], [list(e) for e in d[1]], d[2]
